@@ -322,6 +322,9 @@ fn run_shots<RK: RadioKind, C: Probe>(
                     let mut sh = bus.borrow_mut();
                     sh.chip.clear_transcript();
                     sh.arm(Some(crate::bus::Fault { kind: crate::bus::FaultKind::Spi, at: j }));
+                    // every other time the transfer that fails has reached the chip (the error arose on the
+                    // way back): a repeated read then starts where the first one left the chip's pointer
+                    sh.fault_executes = (j as u64 + shot.nonce as u64) % 2 == 1;
                 }
                 for (i, b) in arena.iter_mut().enumerate() {
                     *b = canary(i);
@@ -341,6 +344,7 @@ fn run_shots<RK: RadioKind, C: Probe>(
                 {
                     let mut sh = bus.borrow_mut();
                     sh.arm(None);
+                    sh.fault_executes = false;
                     sh.chip.clear_transcript();
                 }
                 for (i, b) in arena.iter_mut().enumerate() {
